@@ -304,6 +304,7 @@ def job_csv(job, tmp):
                         dl.append([e, 'crash', cls(ex)])
                 dyns.append(dl)
         r['direct'] = direct
+        r['search'] = search
         if job.get('oracle'):
             r['oracle'] = {'search': search, 'expr': exprs, 'dyn': dyns}
             r['tf'] = tf_table(b, [tuple(x) for x in transforms])
